@@ -176,3 +176,68 @@ func VerifC16ComposeList() {
 		verifReach("notdir")
 	}
 }
+
+// VerifC16CrossDir: base names that occur in two directories with different kinds (x is a directory in the
+// root and a file in sub; sub is a directory in the root and a file in x): after every directory has been
+// listed (by name and through a handle, in a chosen order), every listed entry's kind still agrees with Stat
+// of its full path, and listing again gives the same answer - whatever a layer remembers must be keyed by the
+// full path.
+func VerifC16CrossDir() {
+	base, err := mem.NewFS()
+	verifAssert(err == nil, "NewFS failed")
+	verifAssert(base.Mkdir("x", 0755) == nil, "Mkdir x")
+	verifAssert(base.Mkdir("sub", 0755) == nil, "Mkdir sub")
+	verifAssert(hackpadfs.WriteFullFile(base, "sub/x", []byte{1}, 0644) == nil, "WriteFullFile sub/x")
+	verifAssert(hackpadfs.WriteFullFile(base, "x/sub", []byte{2}, 0644) == nil, "WriteFullFile x/sub")
+	var fsys hackpadfs.FS = base
+	switch verifChoice("fskind", 3) {
+	case 1:
+		verifTag("fs", "cache")
+		store, err := mem.NewFS()
+		verifAssert(err == nil, "NewFS failed")
+		cfs, err := cache.NewReadOnlyFS(base, store, cache.ReadOnlyOptions{})
+		verifAssert(err == nil, "NewReadOnlyFS failed")
+		fsys = cfs
+	case 2:
+		verifTag("fs", "mount")
+		mfs, err := NewFS(base)
+		verifAssert(err == nil, "mount.NewFS failed")
+		fsys = mfs
+	default:
+		verifTag("fs", "mem")
+	}
+	dirs := []string{".", "sub", "x"}
+	want := map[string]bool{"x": true, "sub": true, "sub/x": false, "x/sub": false}
+	// list every directory once, in a chosen order
+	order := [][]int{{0, 1, 2}, {0, 2, 1}, {1, 0, 2}, {2, 1, 0}}[verifChoice("order", 4)]
+	for _, di := range order {
+		d := dirs[di]
+		if verifChoice(verifName("how", di), 2) == 0 {
+			_, err := hackpadfs.ReadDir(fsys, d)
+			verifAssert(err == nil, "ReadDir failed")
+		} else {
+			f, err := fsys.Open(d)
+			verifAssert(err == nil, "Open(dir) failed")
+			_, err = hackpadfs.ReadDirFile(f, -1)
+			verifAssert(err == nil, "ReadDirFile failed")
+			_ = f.Close()
+		}
+	}
+	verifReach("all-listed")
+	for _, d := range dirs {
+		entries, err := hackpadfs.ReadDir(fsys, d)
+		verifAssert(err == nil, "a directory cannot be listed after the others were")
+		for _, e := range entries {
+			full := e.Name()
+			if d != "." {
+				full = d + "/" + e.Name()
+			}
+			isDir, known := want[full]
+			verifAssert(known, "a listing contains an entry that was never created")
+			verifAssert(e.IsDir() == isDir, "the kind in a listing differs from what was created")
+			info, err := hackpadfs.Stat(fsys, full)
+			verifAssert(err == nil, "Stat of a listed entry failed")
+			verifAssert(info.IsDir() == isDir, "Stat disagrees with the listing about an entry's kind")
+		}
+	}
+}
